@@ -14,7 +14,25 @@ use crate::WithErrorInfo;
 impl Resolver<'_> {
     pub(super) fn resolve_ident(&mut self, ident: &Ident) -> Result<Ident, Error> {
         let mut res = if let Some(default_namespace) = self.default_namespace.clone() {
-            self.resolve_ident_core(ident, Some(&default_namespace))
+            // Identifiers are resolved relative to the current module first (and then its parents),
+            // also where a default namespace applies (table references): a declaration of the
+            // enclosing modules takes precedence over inferring a table of that name.
+            let mut found = None;
+            if !self.current_module_path.is_empty() && ident.name != "*" {
+                let mut rel = ident.clone().prepend(self.current_module_path.clone());
+                for _ in 0..self.current_module_path.len() {
+                    let decls = self.root_mod.module.lookup(&rel);
+                    if decls.len() == 1 {
+                        found = decls.into_iter().next();
+                        break;
+                    }
+                    rel = rel.pop_front().1.unwrap();
+                }
+            }
+            match found {
+                Some(fq_ident) => Ok(fq_ident),
+                None => self.resolve_ident_core(ident, Some(&default_namespace)),
+            }
         } else {
             let mut ident = ident.clone().prepend(self.current_module_path.clone());
 
